@@ -384,6 +384,7 @@ fn main() {
         Some("session") => hv::drivers::cmd_session(&args),
         Some("race") => hv::drivers::cmd_race(&args),
         Some("scan") => hv::drivers::cmd_scan(&args),
+        Some("call") => hv::drivers::cmd_call(&args),
         _ => {
             eprintln!("usage: driver ops|work|feed|session|race|scan ...");
             std::process::exit(2);
